@@ -1539,6 +1539,10 @@ class Interp:
     def unwind(self, exc, base):
         """Run cleanup blocks of the frames above `base`, then re-raise to the caller of run()."""
         stack = self.stack
+        if exc.kind == 'deadlock':
+            # not a panic: the run simply cannot continue; no unwinding, no destructors
+            del stack[base:]
+            raise exc
         prev = self.panicking
         self.panicking = True
         try:
